@@ -27,7 +27,7 @@ UNIT = dict(
                  (r"^chance_infosets\.iter_mut\(\)\.for_each\(ChanceRecurse::advance\);$", ("abstract", "")),
                  (r"^for \(reg, infos\) in regs\.iter_mut\(\)\.zip\(player_infosets\.iter_mut\(\)\) \{ \*reg = infos\.iter_mut\(\)\.map\(\|info\| info\.advance\(it, params\)\)\.sum\(\); \}$", ("abstract", "")),
                  (r"^let \[reg_one, reg_two\] = regs;$", ("abstract", "")),
-                 (r"^if f64::max\(reg_one, reg_two\) < max_reg \{ break; \}$", ("abstract_break", "if __abs_stop() { break; }")),
+                 (r"^if .* \{ break; \}$", ("abstract_break", "if __abs_stop() { break; }")),
              ]},
              loops={0: dict(kind="for", head="""invariant
     queue@.len() == 0, work@.len() == 0, map_len(&payoffs) == 0, // @ob C06.V.solve_generic_multi.workspace_fresh""")},
